@@ -181,7 +181,11 @@ inline void nearestChecks(vh::Ctx& c, const Shape& s, vh::Rng& r, long idx, int 
         if (insideSet) {
             bool judged = false, truth = false;
             if (s.kind == MESH) {
-                if ((double)dex > 1e-9 * sc) { BfInside bi = bfInside(s.mesh, V3(Q.x), r); if (bi.ok) { judged = true; truth = bi.inside; } else c.skip("inside-parity-no-clean-ray"); }
+                if ((double)dex > 1e-9 * sc) {
+                    BfInside bi = bfInside(s.mesh, V3(Q.x), r); LD wn = windingNumber(s.mesh, V3(Q.x));
+                    bool wnIn = wn > 0.5L;
+                    if (bi.ok && std::fabs(wn - (wnIn ? 1 : 0)) < 1e-6L && wnIn == bi.inside) { judged = true; truth = bi.inside; } else c.skip("inside-oracles-not-clean");
+                }
             } else {
                 LD iv = insideValue(s, V3(Q.x));
                 LD band = (s.kind == ELLIPSOID ? 1e-9L : 1e-9L * sc);
